@@ -278,6 +278,9 @@ def check(prog, rep):
     from .c04 import rule_gap_is_loud
     rep.guarded(rule_gap_is_loud, prog, rep, "R9")
     rep.guarded(rule_nothing_to_parameterise_is_loud, prog, rep, "R10")
+    rep.guarded(shared.rule_no_runtime_module_state, prog, rep, "R11", "every run reads and validates its own input files: the readers keep no table of files parsed earlier",
+                ["forcefield.py", "definitions.py", "io.py", "pdb.py", "cif.py", "main.py", "ligand/mol2.py"],
+                "a file that was valid when it was first read is not read again, so a later run with a file that is now missing or malformed succeeds and writes output", 1)
     # ------------------------------------------------------------------ R6
     r6 = rep.rule("R6", "a structure without atoms fails before any output on every path", floor=1)
     pi = order.get("print_pqr", (None,))[0]
